@@ -129,8 +129,12 @@ def make_case(unit):
     cats = [{"id": k + 1, "name": "p%d" % (k + 1), "missing": False, "numeric_value": None}
             for k in range(L)]
     if date:
+        # the labels are ascending, rotated (a wave appended to the variable later) or descending:
+        # the window runs over the periods as the response orders them, whatever they are called
+        lab = gen.stratum(ID, unit["k"], "date_labels", 3)
         for k, c in enumerate(cats):
-            c["date"] = "20%02d-01" % (10 + k)
+            kk = k if lab == 0 else (k + 1) % L if lab == 1 else L - 1 - k
+            c["date"] = "20%02d-01" % (10 + kk)
     cats.append({"id": 99, "name": "m", "missing": True, "numeric_value": None})
     nonempty = [k for k in range(L) if k not in cfg["empty"]] or [L]
     ans = np.array([g.pick(nonempty + [L] * 0) if nonempty != [L] else L for _ in range(N)])
